@@ -286,7 +286,7 @@ def cut_for(interp: Interp, node: ast.For, st: St, seq: SymSeq):
             if sig is not None:
                 yield s1, sig
                 continue
-            for s2, sig2 in interp.exec_block(node.body, s1):
+            for s2, sig2 in _with_index(interp, i, interp.exec_block(node.body, s1)):
                 if sig2 is None or sig2[0] == CONT:
                     for nm, gf in spec.ghost.items():
                         for s_, r_ in interp.eval(ast.parse(gf[1], mode="eval").body, s2):
@@ -313,6 +313,20 @@ def cut_for(interp: Interp, node: ast.For, st: St, seq: SymSeq):
         sh.env.pop(nm, None)
     if interp.check_sat(sh):
         yield from interp.exec_block(node.orelse, sh)
+
+
+def _with_index(interp, i, gen):
+    """run a lazily evaluated body with `i` as the current loop index (restored around every yield)"""
+    it = iter(gen)
+    while True:
+        interp.loop_index.append(i)
+        try:
+            item = next(it)
+        except StopIteration:
+            interp.loop_index.pop()
+            return
+        interp.loop_index.pop()
+        yield item
 
 
 def bounded_for(interp: Interp, node, st, seq: SymSeq, ordinal):
@@ -416,7 +430,11 @@ def quantified_map(interp: Interp, st: St, seq: SymSeq, body, seq_src=None):
     heap_keys = set(base.heap.keys())
     base.assume(z3.And(j >= 0, j < n))
     el = seq.elem(base, j)
-    paths = list(body(base, el))
+    interp.loop_index.append(j)
+    try:
+        paths = list(body(base, el))
+    finally:
+        interp.loop_index.pop()
     oks, fails = [], []
     for s, r in paths:
         if set(s.heap.keys()) != heap_keys or len(s.mods) != len(st.mods):
